@@ -1045,3 +1045,25 @@ def delete_keeps_spent(ctx):
         ctx.require(ok, q, '`%s` is not guarded by a query for ANOTHER input of the wallet that spends the same outpoint (prev_txid, output_n, transaction_id != the deleted one)' % norm(nd.ast), nd.ast,
                     'a fee-bumped transaction and its replacement are both stored; deleting the old one lists their common input as unspent again although the replacement spends it: it is selected for the next payment')
     ctx.floor(n, 1, 'spent flags reset by delete()')
+
+
+@PROP.obligation('C08.update-default-account', canaries=[
+    mut.replace_expr(W, 'Wallet.utxos_update', 'self._get_account_defaults(None, account_id, key_id)', "self._get_account_defaults('', account_id, key_id)", 'received outputs are booked under account 0 whatever the default account is'),
+])
+def update_default_account(ctx):
+    """Wallet._get_account_defaults(network, account_id) turns "no account given" into the wallet's default account only when the network
+    is the wallet's own (or None). Every call of it in wallets.py passes a network VARIABLE or None - never a constant such as '' -
+    so that a wallet created with account_id=5 books what utxos_update / utxo_add receive under account 5: booked under account 0 the
+    reported balance is 0 while the key of account 5 holds the amount."""
+    mod = ctx.repo.mod('wallets')
+    n = 0
+    for name, fn in sorted(mod.functions.items()):
+        for c in walk_no_nested(fn):
+            if isinstance(c, ast.Call) and isinstance(c.func, ast.Attribute) and c.func.attr == '_get_account_defaults':
+                n += 1
+                net = c.args[0] if c.args else next((k.value for k in c.keywords if k.arg == 'network'), None)
+                ok = net is None or not isinstance(net, ast.Constant) or net.value is None
+                ctx.saw('%s: _get_account_defaults(network=%s, ...)' % (name, norm(net) if net is not None else 'default'))
+                ctx.require(ok, 'wallets:' + name, '`%s` resolves the account for the constant network %s: the default-account rule does not apply to it' % (norm(c)[:60], norm(net) if net is not None else ''), c,
+                            'Wallet.create(..., account_id=5); utxo_add(...): balance() is 0 and utxos() empty, utxos(account_id=0) lists the output of a key of account 5')
+    ctx.floor(n, 10, 'calls of _get_account_defaults')
